@@ -80,6 +80,8 @@ def data(H, rng, big):
     kind = ["clustered", "clustered", "full", "duprows", "ties", "scaled"][int(rng.integers(6))]
     n = int(rng.integers(10, 41 if big else 21))
     m = int(rng.integers(2, 4))
+    if rng.random() < 0.12:
+        n = m = int(rng.integers(6, 11))        # as many features as samples (a square data matrix; never symmetric here)
     if kind == "clustered":
         c = rng.integers(-8, 9, size=(4, m)) * 6
         X = c[rng.integers(0, 4, size=n)] + rng.integers(-1, 2, size=(n, m))
